@@ -324,6 +324,16 @@ def check(pid, tier, seed):
         "executions_with_parking": parked,
         "model_checks": mcs, "graph_dump": dump_stats, "trace_validation": tstats,
     }
+    if tier == "thorough" and pid in ("C01", "C12"):
+        # unbounded argument on the algorithm (any number of operations, any ticket values; 3 threads): an inductive
+        # invariant discharged by Apalache; the same invariant is a TLC invariant of the model replayed above
+        try:
+            from lib import apalache
+            cov["unbounded_argument"] = apalache.lock_argument(pid)
+            if not cov["unbounded_argument"]["holds"]:
+                log("[%s] NOTE: an Apalache obligation did not come out as expected (model-level argument only; no verdict)" % pid)
+        except Exception as e:   # noqa: BLE001
+            cov["unbounded_argument"] = {"error": str(e)[:300]}
     rc = verdict.finish()
     common.write_evidence(pid, tier, seed, "model_checking", cov, ASSUMPTIONS, time.time() - t0, len(verdict.violations))
     return rc
